@@ -80,6 +80,73 @@ func genFrameInterface(ctx *Ctx, emit func(Case)) {
 	_ = keys.Hex
 }
 
+// genFrameWords: every frame with exactly ONE word wrong (marker, brand shape, format word, each word of the type
+// string), with and without brand, as header and as footer, for every armorable type — through parseFrame, through
+// CheckArmor62 (the same wrong word in header AND footer, so that mirroring cannot hide it) and through the
+// validating dearmorer. (The mutation sweep: dropping the "bad format name" error went unnoticed because the only
+// frame with a wrong format word had a genuine footer that failed the brand comparison anyway.)
+func genFrameWords(ctx *Ctx, emit func(Case)) {
+	r := ctx.R.Fork()
+	payload := r.Bytes(40)
+	types := map[int][]string{0: {"ENCRYPTED", "MESSAGE"}, 1: {"SIGNED", "MESSAGE"}, 2: {"DETACHED", "SIGNATURE"}}
+	wrong := []string{"PGP", "SALTPACC", "saltpack", "Saltpack", "SALTPACK2", "", "ENCRYPTED", "MESSAGE", "BEGIN", "END", "SIGNED", "X"}
+	for typ := 0; typ <= 2; typ++ {
+		for _, brand := range []string{"", "KB"} {
+			for _, marker := range []string{"BEGIN", "END"} {
+				words := []string{marker}
+				if brand != "" {
+					words = append(words, brand)
+				}
+				words = append(words, "SALTPACK", types[typ][0], types[typ][1])
+				for wi := range words {
+					for _, w := range wrong {
+						if w == words[wi] {
+							continue
+						}
+						v := append([]string(nil), words...)
+						v[wi] = w
+						frame := strings.Join(v, " ")
+						hf := "h"
+						if marker == "END" {
+							hf = "f"
+						}
+						l := fmt.Sprintf("armor.parse %d %s %s", typ, hf, keys.Hex([]byte(frame)))
+						o := goExec(l)
+						emit(Case{Stream: "armor.parse.oneword", Line: l, GoOut: o, Cmp: errCmp, Branch: fmt.Sprintf("typ%d/word%d/%s", typ, wi, strings.Fields(o)[0])})
+						if marker == "BEGIN" && (ctx.Quick && (wi+typ)%2 == 0 || !ctx.Quick) {
+							// the same edit in header and footer
+							fv := append([]string(nil), v...)
+							if wi != 0 {
+								fv[0] = "END"
+							}
+							hdr, ftr := frame, strings.Join(fv, " ")
+							l2 := fmt.Sprintf("armor.check %d %s %s", typ, keys.Hex([]byte(hdr)), keys.Hex([]byte(ftr)))
+							o2 := goExec(l2)
+							emit(Case{Stream: "armor.check.oneword", Line: l2, GoOut: o2, Cmp: errCmp, Branch: fmt.Sprintf("typ%d/word%d/%s", typ, wi, strings.Fields(o2)[0])})
+							good, _ := saltpack.Armor62Seal(payload, saltpack.MessageType(typ), brand)
+							body := strings.SplitN(good, ".", 3)[1]
+							text := hdr + "." + body + ". " + ftr + ".\n"
+							l3 := fmt.Sprintf("armor.open %d %s", typ, keys.Hex([]byte(text)))
+							o3 := goExec(l3)
+							wi, w := wi, w
+							emit(Case{Stream: "armor.open.oneword", Line: l3, GoOut: o3, Cmp: errCmp, Branch: fmt.Sprintf("typ%d/word%d/%s", typ, wi, strings.Fields(o3)[0]),
+								Direct: func() string {
+									// a wrong word anywhere but in the brand slot makes the frame malformed (a brand may be any alphanumeric word)
+									brandSlot := brand != "" && wi == 1
+									if !brandSlot && strings.HasPrefix(o3, "ok ") {
+										return fmt.Sprintf("a text whose header and footer carry the wrong word %q (position %d of the frame) is accepted by the validating dearmorer: %q", w, wi, trunc(text, 300))
+									}
+									return ""
+								}})
+						}
+					}
+				}
+			}
+		}
+	}
+}
+
 func init() {
 	regExtra("C11", genFrameInterface)
+	regExtra("C11", genFrameWords)
 }
